@@ -1207,11 +1207,15 @@ def content_laws(m, level, flavour):
             if v == "one_row_loop" and not one_row:
                 continue
             operands.append(("foreign_" + v, foreign_text(fm, v), True))
-    for p in perturbations(m, level, flavour):
+    for p in perturbations(m, level, flavour)[:2]:  # first key removed; first value replaced by another one
         if all(cat_serialisable(c) for c in all_categories(p, level)):
             operands.append(("perturbed", p, False))
-    combos = PARSE_COMBOS if not (flavour == "text" and level == "category") else PARSE_COMBOS[:1]
+    trivial = flavour == "text" and level == "category"  # a CIFCategory has no lazy elements
     for name, data, want in operands:
+        # all four parse-state combinations for operands written by biotite; for the hand-written layouts the
+        # two combinations in which both operands are in the same parse state
+        combos = PARSE_COMBOS[:1] if trivial else (
+            [PARSE_COMBOS[0], PARSE_COMBOS[3]] if name.startswith("foreign_") else PARSE_COMBOS)
         try:
             if name == "reversed_order":
                 data = serialized(rev, level, flavour)
@@ -1244,6 +1248,14 @@ def strip_origin_keep(m):
 
 def exc_mode(want, got):
     return "raises_%s_instead_of_%s" % (got, "|".join(want) if want else "error")
+
+
+class _Everything:
+    def __contains__(self, item):
+        return True
+
+    def add(self, item):
+        pass
 
 
 class _Collect:
@@ -1366,7 +1378,9 @@ def run_history(shard, ctx):
         m0 = mark_parsed(m0)
     ops = gen_ops(level, flavour)
     ctx._law_checked = set()
-    ctx._content_checked = {content_key(m0)}
+    # the content-only laws are checked in the two deep shards of every subject (every content of the
+    # 'one' / 'two' shards is reached from 'empty' with 1-2 more operations); None = always "seen"
+    ctx._content_checked = {content_key(m0)} if init in ("empty", "two_parsed") else _Everything()
     # initial state: complete observation
     try:
         im0, _ = rebuild(level, flavour, init, [])
